@@ -126,6 +126,27 @@ def run(ctx, rep):
         rep.ob("C10.guard", "%s looks the assigned name up before binding it" % sub, "ok" if look else "violated", "", g.span, fn=g.path,
                key="C10.guard|lookup|" + sub)
 
+    # a declared-const identifier is marked const before it is registered in the scope (the scope stores a clone:
+    # marking afterwards leaves the registered copy writable)
+    REGISTER = ("compiler::ast::ident::Ident::link_force_no_inherit", "compiler::ast::ident::Ident::link", "compiler::ast::value::Value::associate_with_ident",
+                "compiler::parser::AssocFileData::add_dependency", "compiler::ast::ident::Ident::link_from_pointed_type_with_lookup",
+                "compiler::ast::ident::Ident::set_type_no_link")
+    for sub in ("assignment_no_type", "assignment_type", "assignment_unpack"):
+        g = need(F, "compiler::parser::Parser::" + sub)
+        marks = g.calls_to("compiler::ast::ident::Ident::mark_const")
+        regs = [c for c in g.calls() if c.matches(REGISTER[:4])]
+        if not marks:
+            rep.ob("C10.read-only", "%s marks a `const` declaration read-only" % sub, "violated", "no Ident::mark_const call", g.span, fn=g.path,
+                   key="C10.read-only|mark|" + sub)
+            continue
+        late = [m for m in marks if any(m.bb in g.reachable(r.target) for r in regs if r.target is not None)]
+        # and the marking is under the `is_const` parameter
+        rep.ob("C10.read-only", "%s: a const declaration is marked read-only before the name is registered in the scope" % sub,
+               "violated" if late or not regs else "ok",
+               "Ident::mark_const is reachable after %s: the scope already holds a writable clone of the identifier" % (
+                   sorted({mir.short(r.callee()) for r in regs if any(m.bb in g.reachable(r.target) for m in late)})) if late else "",
+               (late[0].span if late else g.span), fn=g.path, key="C10.read-only|mark-before-register|" + sub)
+
     # reassignment: is_const flag from the root identifier to the test
     pr = need(F, "compiler::parser::Parser::reassignment")
     parse_calls = pr.calls_to("compiler::ast::reassignment::ReassignmentPath::parse")
